@@ -67,7 +67,7 @@ bool Kernel::readable(File *f) {
     case F_TIMERFD: return f->armed && R->now >= readable_at(f);
     case F_SIGNALFD: return (pending_signals & f->sigmask) != 0;
     case F_INOTIFY: return !f->inq.empty();
-    case F_PIDFD: return exited_pids.count(f->pid) > 0;
+    case F_PIDFD: return exited_pids.count(f->pid) > 0 || reaped_pids.count(f->pid) > 0;
     default: return false;
     }
 }
@@ -511,6 +511,14 @@ void Kernel::env_pid_exit(int pid) {
     live_pids.erase(pid);
     exited_pids.insert(pid);
     tr("env_pid_exit", pid);
+    kernel_changed();
+}
+void Kernel::env_pid_reap(int pid) {
+    // the process is gone for good (exited and waited for): descriptors already open stay readable, it cannot be opened any more
+    live_pids.erase(pid);
+    exited_pids.erase(pid);
+    reaped_pids.insert(pid);
+    tr("env_pid_reap", pid);
     kernel_changed();
 }
 void Kernel::env_touch(const char *path, uint32_t mask, bool with_name) {
